@@ -62,6 +62,16 @@ def PvSem (env : Env) : ASpec → Prop
       (sp.mem pv ↔ sp.mem f)
   | .gen _ => True
 
+/-- a plain final release with at most two significant components (`3.8`, `3.8.0`, `4`) -/
+def Pv2 (v : Ver) : Prop := Spec.FinalV v ∧ ∀ i, 2 ≤ i → VOrd.nth0 v.release i = 0
+
+/-- every version stored in a python_version view has at most two significant components: what
+    `python_version` atoms with operands `X`, `X.Y` (and `X.Y.0` as from_specifier writes them) have,
+    and what `&`, `|` preserve -/
+def PvBounds : ASpec → Prop
+  | .ver sp => Spec.BoundsIn Pv2 sp
+  | .gen _ => True
+
 /-- both views are of the kind the variable has -/
 def SameKind (n : String) (s : ASpec) : Prop :=
   match s with
@@ -81,7 +91,7 @@ def GoodAtom (env : Env) (a : Atom) : Prop :=
   (if a.name = "extra" then a.op = .eq ∨ a.op = .ne
    else if setNames.contains a.name then a.reversed = true ∧ (a.op = .in_ ∨ a.op = .notIn)
    else if versionLikeNames.contains a.name then
-     a.Coherent env ∧ a.spec.Canon ∧ NormGood env a ∧ (a.name = "python_version" → PvSem env a.spec)
+     a.Coherent env ∧ a.spec.Canon ∧ NormGood env a ∧ (a.name = "python_version" → PvBounds a.spec)
    else StrName a.name)
 
 def Good (env : Env) : M → Prop
@@ -302,7 +312,7 @@ theorem ASpec.beq_holds (env : Env) (he : EnvTotal env) (n : String) (r s : ASpe
     bounds into a marker that means it -/
 def FromSpecOk (env : Env) : Prop :=
   ∀ name s m, versionLikeNames.contains name = true → ASpec.Canon (.ver s) →
-    (name = "python_version" → PvSem env (.ver s)) →
+    (name = "python_version" → PvBounds (.ver s)) →
     fromSpecifier name (.ver s) = some m → GAll (Good env) m ∧ sem env m = holds env name (.ver s)
 
 /-- the python_version / python_full_version merge -/
@@ -392,19 +402,18 @@ theorem ofGRes_beq_gen (r : GRes) (g : GSpec) (h : (ASpec.ofGRes r).beq (.gen g)
   rintro rfl
   simp [ASpec.ofGRes, ASpec.beq] at h
 
-theorem good_pvsem (env : Env) (a : Atom) (ha : GoodAtom env a) (h1 : a.name ≠ "extra")
+theorem good_pvbounds (env : Env) (a : Atom) (ha : GoodAtom env a) (h1 : a.name ≠ "extra")
     (h2 : setNames.contains a.name = false) (hv : versionLikeNames.contains a.name = true) :
-    a.name = "python_version" → PvSem env a.spec := by
+    a.name = "python_version" → PvBounds a.spec := by
   have hc := ha.2
   simp only [h1, if_false, h2, Bool.false_eq_true, hv, if_true] at hc
   exact hc.2.2.2
 
-theorem aspec_pvsem (env : Env) (isAnd : Bool) (s1 s2 r : ASpec) (c1 : s1.Canon) (c2 : s2.Canon)
-    (p1 : PvSem env s1) (p2 : PvSem env s2)
-    (hr : (if isAnd then aspecAnd s1 s2 else aspecOr s1 s2) = some r) : PvSem env r := by
+theorem aspec_pvbounds (isAnd : Bool) (s1 s2 r : ASpec) (p1 : PvBounds s1) (p2 : PvBounds s2)
+    (hr : (if isAnd then aspecAnd s1 s2 else aspecOr s1 s2) = some r) : PvBounds r := by
   cases s1 with
   | gen a => cases s2 <;> cases isAnd <;> simp [aspecAnd, aspecOr] at hr <;>
-      (obtain ⟨gr, _, rfl⟩ := hr; cases gr <;> simp [ASpec.ofGRes, PvSem, Spec.mem])
+      (obtain ⟨gr, _, rfl⟩ := hr; cases gr <;> simp [ASpec.ofGRes, PvBounds, Spec.boundsIn_empty, Spec.boundsIn_any])
   | ver a =>
     cases s2 with
     | gen b => cases isAnd <;> simp [aspecAnd, aspecOr] at hr
@@ -413,15 +422,11 @@ theorem aspec_pvsem (env : Env) (isAnd : Bool) (s1 s2 r : ASpec) (c1 : s1.Canon)
       | true =>
         simp only [if_true, aspecAnd, Option.some.injEq] at hr
         subst hr
-        intro pv f hpv hf
-        rw [Spec.and_mem, Spec.and_mem, p1 pv f hpv hf, p2 pv f hpv hf]
+        exact Spec.and_boundsIn Pv2 a b p1 p2
       | false =>
         simp only [Bool.false_eq_true, if_false, aspecOr, Option.map_eq_some_iff] at hr
         obtain ⟨s, hs, rfl⟩ := hr
-        obtain ⟨s', hs', _, hm⟩ := Spec.or_spec a b c1.canon c2.canon
-        rw [hs] at hs'; cases hs'
-        intro pv f hpv hf
-        rw [hm, hm, p1 pv f hpv hf, p2 pv f hpv hf]
+        exact Spec.or_boundsIn Pv2 a b s p1 p2 hs
 
 /-- the branch of `_merge_single_markers` where the specifier views could be combined -/
 theorem merge_some_ok (env : Env) (he : EnvTotal env) (hF : FromSpecOk env) (a b : Atom) (isAnd : Bool)
@@ -467,8 +472,8 @@ theorem merge_some_ok (env : Env) (he : EnvTotal env) (hF : FromSpecOk env) (a b
           have hvl : versionLikeNames.contains a.name = true := by rw [hsa] at ka; exact ka
           refine hF a.name s m hvl hsem.2 ?_ hm
           intro hpvn
-          exact aspec_pvsem env isAnd _ _ _ na nb (good_pvsem env a ha h1 h2 hvl hpvn)
-            (good_pvsem env b hb (hn ▸ h1) (hn ▸ h2) (hn ▸ hvl) (hn ▸ hpvn)) hr
+          exact aspec_pvbounds isAnd _ _ _ (good_pvbounds env a ha h1 h2 hvl hpvn)
+            (good_pvbounds env b hb (hn ▸ h1) (hn ▸ h2) (hn ▸ hvl) (hn ▸ hpvn)) hr
         | gen ga =>
           -- a string merge that collapsed to the empty / universal specifier
           have hs : s = .empty ∨ s = .any := by
